@@ -78,7 +78,7 @@ inductive Site where
   | renExpectedBurn | renMinValidPayout | renMinMissedAdd | renMinMissedSub
   | formCollateralSub | conValidHost | conMissedHost | conVoid
   | baseStorageMul1 | baseStorageMul2 | baseRevenueAdd | baseCollateralMul1 | baseCollateralMul2
-  | usageStorageSub | rpcExistingValidRenter
+  | usageStorageSub | rpcExistingValidRenter | usageTotalAdd
 deriving DecidableEq, Repr
 
 /-- root cause of a panic site; used in monitor names / known-finding signatures -/
@@ -108,12 +108,14 @@ def Site.label : Site → String
   | .baseStorageMul1 | .baseStorageMul2 | .baseRevenueAdd => "base_revenue_overflow"
   | .baseCollateralMul1 | .baseCollateralMul2 => "base_collateral_overflow"
   | .usageStorageSub => "usage_underflow"
+  | .usageTotalAdd => "usage_total_overflow"
 
 /-- kind of Go panic raised at a site (what the harness can observe) -/
 def Site.kind : Site → String
   | .stdOldSum | .stdValidSum | .stdMissedSum | .progExpectedBurn | .payValidHostAdd | .payMissedHostAdd
   | .renExpectedBurn | .renMinValidPayout | .renMinMissedAdd
-  | .baseStorageMul1 | .baseStorageMul2 | .baseRevenueAdd | .baseCollateralMul1 | .baseCollateralMul2 => "overflow"
+  | .baseStorageMul1 | .baseStorageMul2 | .baseRevenueAdd | .baseCollateralMul1 | .baseCollateralMul2
+  | .usageTotalAdd => "overflow"
   | .payValidRenterSub | .payMissedRenterSub | .renMinMissedSub | .formCollateralSub | .usageStorageSub => "underflow"
   | _ => "index"
 
@@ -505,6 +507,8 @@ def rpcRenew2 (fx : Bool) (requireHeight : Nat) (existing renewal : Rev) (finalV
   let (baseRevenue, baseCollateral) ← renewBase fx st.contractPrice st.storagePrice st.collateral existing renewal
   let (baseRevenue', risked, locked) ← validateRenewal2 fx existing renewal expUH baseRevenue baseCollateral height st
   let storage ← csub .usageStorageSub baseRevenue' st.contractPrice
+  -- `return clearingUsage.Add(renewalUsage), …` after RenewContract: RPCRevenue fields are added with the panicking Add
+  let _ ← cadd .usageTotalAdd finalPayment st.contractPrice
   pure { locked := locked, rpcRevenue := st.contractPrice, storageRevenue := storage, risked := risked,
          clearingRPC := finalPayment }
 
@@ -515,6 +519,8 @@ def rpcRenew3 (fx : Bool) (requireHeight : Nat) (existing clearing renewal : Rev
   let finalPayment ← validateClearing fx existing clearing 0
   let (baseRevenue, baseCollateral) ← renewBase fx st.renewCost st.storagePrice st.collateral existing renewal
   let (risked, locked) ← validateRenewal3 fx existing renewal expUH baseRevenue baseCollateral height st
+  -- `return finalRevisionUsage.Add(renewalUsage), …` after RenewContract
+  let _ ← cadd .usageTotalAdd finalPayment st.contractPrice
   pure { locked := locked, rpcRevenue := st.contractPrice, storageRevenue := baseRevenue, risked := risked,
          clearingRPC := finalPayment }
 
